@@ -54,7 +54,7 @@ ASSUMPTIONS = [
     "Bezier patches: either assignment of (u, v) to the (inner, outer) index of the control net is accepted, but it must be the same for every "
     "evaluation and for as_surface; hull membership is certified by an explicit convex combination (residual <= 1e-9 x max |P|) and only "
     "reported as violated when the LP optimum exceeds 1e-7 x max |P|",
-    "exports: n, n1, n2 >= 2; custom positions are passed together with n_pts = len(custom positions); control points of exports are 2-D or 3-D "
+    "exports: n >= 1 for as_polyline, n1, n2 >= 2 for as_surface; custom positions are passed together with n_pts = len(custom positions); control points of exports are 2-D or 3-D "
     "(curve) / 3-D (patch); any exception counts as rejection of an out-of-range parameter",
     "point-cloud return variants are judged by the same post-conditions as the array variants (coordinates beyond the box dimension are padding)",
 ]
@@ -743,6 +743,9 @@ def run_curve(desc, ctx):
     if dim in (2, 3):
         for n in desc["ns"]:
             _check_polyline_export(ctx, cv, Pf, P, M, dim, n, None, rng)
+        if desc.get("seed", 0) % 4 == 0:
+            # the smallest sample count: one sample, the curve's first point (numpy.linspace(0, 1, 1) is [0.]), no edge
+            _check_polyline_export(ctx, cv, Pf, P, M, dim, 1, None, rng)
         m = rng.randint(2, 9)
         pos = [rng.choice([0.0, 1.0, rng.random(), rng.random()]) for _ in range(m)]
         _check_polyline_export(ctx, cv, Pf, P, M, dim, m, pos if rng.random() < 0.5 else np.array(pos), rng)
@@ -814,7 +817,7 @@ def _check_polyline_export(ctx, cv, Pf, P, M, dim, n, custom, rng):
     site = "curve.as_polyline" + (":custom_pos" if custom is not None else "")
     if custom is None:
         ok, pl = ctx.call(site, cv.as_polyline, n, monitor="export")
-        ts = [Fraction(i, n - 1) for i in range(n)]
+        ts = [Fraction(i, n - 1) for i in range(n)] if n > 1 else [Fraction(0)]
     else:
         ok, pl = ctx.call(site, cv.as_polyline, n, custom_pos=custom, monitor="export")
         ts = [Fraction(float(t)) for t in custom]
